@@ -84,7 +84,7 @@ func c01Gen(ctx *core.Ctx, idx int) core.Result {
 		o.Faults = 1
 	}
 	g := gen.New(r, o)
-	stmts := g.Session(r.Range(2, 8))
+	stmts := append(g.Helpers(), g.Session(r.Range(2, 8))...)
 	opts := diffOpts{DoOut: idx%2 == 0, Stress: "plain", Residue: false}
 	d := runDiff(stmts, opts)
 	res := diffCase("C01", stmts, opts, d, nil)
